@@ -210,6 +210,37 @@ func VerifC17Histogram() {
 	verifrt.Reach("c17-histogram")
 }
 
+// VerifC17TwoHistograms: two histograms of one scope tree with different specs - symbolic, so
+// the solver is free to pick specs that collide in tally's bucket cache (e.g. {1,8} and {2,4}) -
+// one sample each: every histogram's cumulative counts follow its own bounds.
+func VerifC17TwoHistograms() {
+	reg := &vRegisterer{real: prom.NewRegistry()}
+	rep := NewReporter(Options{Registerer: reg, OnRegisterError: func(err error) {
+		verifrt.Assert("c17.hist2.no-registration-error", false)
+	}}).(*reporter)
+	scope, closer := tally.NewRootScope(tally.ScopeOptions{CachedReporter: rep, Separator: "_", OmitCardinalityMetrics: true}, 0)
+	fin := func(f float64) bool { return verifrt.And(f > -1e300, f < 1e300) }
+	var bs [4]float64
+	for i := range bs {
+		bs[i] = verifrt.Float64("bound")
+		verifrt.Assume(fin(bs[i]))
+	}
+	verifrt.Assume(verifrt.And(bs[0] < bs[1], bs[2] < bs[3]))
+	x, y := verifrt.Float64("sample"), verifrt.Float64("sample")
+	verifrt.Assume(verifrt.And(fin(x), fin(y)))
+	scope.Histogram("first", tally.ValueBuckets{bs[0], bs[1]}).RecordValue(x)
+	scope.SubScope("sub").Histogram("second", tally.ValueBuckets{bs[2], bs[3]}).RecordValue(y)
+	closer.Close()
+	p1 := rep.timers[canonicalMetricID("first", nil)].histogram.With(nil)
+	p2 := rep.timers[canonicalMetricID("sub_second", nil)].histogram.With(nil)
+	le := func(s, bound float64) uint64 { return uint64(verifrt.IteInt64(s <= bound, 1, 0)) }
+	verifrt.Assert("c17.hist2.first.total-count", vObsCount(p1) == 1)
+	verifrt.Assert("c17.hist2.first.cumulative", verifrt.And(vObsCumulative(p1, bs[0]) == le(x, bs[0]), vObsCumulative(p1, bs[1]) == le(x, bs[1])))
+	verifrt.Assert("c17.hist2.second.total-count", vObsCount(p2) == 1)
+	verifrt.Assert("c17.hist2.second.cumulative", verifrt.And(vObsCumulative(p2, bs[2]) == le(y, bs[2]), vObsCumulative(p2, bs[3]) == le(y, bs[3])))
+	verifrt.Reach("c17-two-histograms")
+}
+
 // VerifC17DurationHistogram: for durations the sample must be replayed as an observation that
 // is bit-identical to the registered bound (in seconds) of the sample's bucket.  (Whether two
 // different bounds stay different after the division by 1e9 is floating-point division over
